@@ -171,6 +171,14 @@ class Frame:
             return getattr(builtins, name)
         raise RaiseSig(NameError(name))
 
+    def contract_lookup(self, name):
+        """a contract / loop rule reading a local of the function it is attached to: a missing name means the
+        code was edited (renamed local) and the contract cannot be evaluated -- undecided, never a verdict"""
+        try:
+            return self.lookup(name)
+        except RaiseSig:
+            raise Unsupported(f"the contract refers to the local variable {name!r}, which the function no longer has")
+
     def find_frame_with(self, name):
         f = self.closure
         while f is not None and not isinstance(f, dict):
@@ -715,10 +723,21 @@ class Interp:
         fr.locals.update(merged)
         return True
 
+    def orphan_loop_check(self, fr, sig, kinds):
+        """a function for which the unit declares loop contracts, but whose loop `sig` matches none of them:
+        the source of the loop header was edited -- the contract (and everything it derives from the loop
+        rule) cannot be applied, so the unit is undecided"""
+        for sp in self.loop_specs:
+            if sp.fn_substr and sp.fn_substr in fr.fn_name and isinstance(sp, kinds) and sp.sig_substr:
+                raise Unsupported(f"loop {sig!r} of {fr.fn_name} matches none of the loop contracts declared for this function "
+                                  f"(expected a loop containing {sp.sig_substr!r})")
+
     def s_While(self, s, fr):
-        spec = self.find_loop_spec(fr, "while " + ast.unparse(s.test))
+        sig = "while " + ast.unparse(s.test)
+        spec = self.find_loop_spec(fr, sig)
         if spec is not None:
             return spec.run_while(self, s, fr)
+        self.orphan_loop_check(fr, sig, (LoopSpec,))
         n = 0
         while True:
             if not self.truth(self.eval(s.test, fr)):
@@ -746,6 +765,8 @@ class Interp:
         spec = self.find_loop_spec(fr, sig)
         if spec is not None:
             return spec.run_for(self, s, fr, it)
+        if isinstance(it, (SRange, SNdIndex)):
+            self.orphan_loop_check(fr, sig, tuple(k for k in (LoopSpec,) if True))
         if isinstance(it, (SRange, SNdIndex)):
             return MapLoop().run_for(self, s, fr, it)
         vals = self.iterate(it)
@@ -1219,6 +1240,9 @@ class Interp:
                 return o.cls
             owner, raw = lookup_class_attr(o.cls, name)
             if owner is None:
+                if getattr(o, "harness_built", False) and not getattr(self, "_in_getattr_default", False):
+                    raise Unsupported(f"the code reads attribute {name!r} of a {o.cls.__name__} that the contract's harness "
+                                      "does not provide (class representation changed?)")
                 raise RaiseSig(AttributeError(f"{o.cls.__name__} object has no attribute {name}"))
             if isinstance(raw, property):
                 qn = f"{owner.__module__}.{owner.__qualname__}.{name}"
@@ -1727,7 +1751,7 @@ class InvariantLoop(LoopSpec):
 
     def run_while(self, interp, s, fr):
         c = ctx()
-        get = lambda n: fr.lookup(n)
+        get = lambda n: fr.contract_lookup(n)
         c.ghost["frame_get"] = get          # contracts may read the loop's locals (e.g. at a raise)
         tag = f"{fr.fn_name.split('.')[-1]}:{s.lineno}"
         c.prove(f"inv-entry:{self.name}@{tag}", self.inv(get, interp), kind="invariant")
@@ -2086,7 +2110,11 @@ def m_hasattr(interp, o, name):
 @model(getattr)
 def m_getattr(interp, o, name, *default):
     try:
-        return interp.getattr(o, name)
+        interp._in_getattr_default = bool(default)
+        try:
+            return interp.getattr(o, name)
+        finally:
+            interp._in_getattr_default = False
     except RaiseSig as e:
         if default and isinstance(e.exc, AttributeError):
             return default[0]
